@@ -284,7 +284,8 @@ class Ephem(Speaker):
             else:
                 # create as ephemeris with a different step than the original
                 date = start
-                while date <= stop:
+                forward = step.total_seconds() > 0
+                while date <= stop if forward else date >= stop:
 
                     orb = self.propagate(date)
 
